@@ -18,6 +18,8 @@ def sh(cmd, cwd=None, env=None):
 for sid in ids:
     d = os.path.join(V, "seeded", sid)
     meta = json.load(open(os.path.join(d, "meta.json")))
+    if str(meta.get("status", "")).startswith("neutralised"):
+        print(f"{sid}: skipped ({meta['status'][:60]}...)"); continue
     wt = tempfile.mkdtemp(prefix="cbimon-seeded-", dir="/tmp")
     os.rmdir(wt)
     sh(["git", "-C", "/repo", "worktree", "add", "-q", "--detach", wt, "HEAD"])
